@@ -164,8 +164,18 @@ class UpnpFactory:
             raise UpnpXmlContentError(f"Invalid document root: {scpd_el.tag}")
 
         service_info = self._parse_service_el(service_description_el)
-        state_vars = self._create_state_variables(scpd_el)
-        actions = self._create_actions(scpd_el, state_vars)
+        try:
+            state_vars = self._create_state_variables(scpd_el)
+            actions = self._create_actions(scpd_el, state_vars)
+        except (UpnpError, KeyError) as err:
+            # incomplete description: state variable without (supported) data type,
+            # argument referring to a state variable which is not declared
+            if not self._non_strict:
+                raise
+            _LOGGER.debug(
+                "Ignoring incomplete service description from URL %s: %r", scpd_url, err
+            )
+            state_vars, actions = [], []
         return UpnpService(self.requester, service_info, state_vars, actions)
 
     def _parse_service_el(self, service_description_el: ET.Element) -> ServiceInfo:
